@@ -20,8 +20,8 @@ func VfWrappers(names []string, srcs []string, rootName, depName, modPath string
 		wanted[m[1]] = true
 	}
 	var eb, sb bytes.Buffer
-	fmt.Fprintf(&eb, "package %s\n\nimport \"time\"\n\nvar _ time.Duration\n\n", rootName)
-	fmt.Fprintf(&sb, "package %s\n\nimport (\n\t\"time\"\n\tvfroot %q\n)\n\nvar _ time.Duration\n\n", depName, modPath)
+	fmt.Fprintf(&eb, "package %s\n\nimport (\n\t\"context\"\n\t\"time\"\n)\n\nvar _ time.Duration\nvar _ context.Context\n\n", rootName)
+	fmt.Fprintf(&sb, "package %s\n\nimport (\n\t\"context\"\n\t\"time\"\n\tvfroot %q\n)\n\nvar _ time.Duration\nvar _ context.Context\n\n", depName, modPath)
 	for i, src := range srcs {
 		fset := token.NewFileSet()
 		f, perr := parser.ParseFile(fset, names[i], src, 0)
